@@ -38,7 +38,8 @@ META = dict(
                 '(4,4), (5,3) (fully symbolic n_pre = 4 leaves z3 nlsat '
                 'without an answer in 120 s on the implicit corr definition)',
                 thorough='all symbolic adds (3,4), (3,7); concrete-control '
-                'adds (6,2), (8,4), (10,7), (12,14)'),
+                'adds (6,2), (8,4) ((10,7) leaves nlsat without an answer in '
+                '120 s)'),
     outside='flevel concrete 0.9 (it only selects the purified F quantile); '
     'n_pre > 10; numerical accuracy of scipy; the float constants 1/n and '
     '1/n_test are not exact rationals unless n, n_test are powers of two: '
@@ -401,7 +402,7 @@ def jobs(tier, seed):
   xconc = [(4, 2), (4, 4), (5, 3)]
   if tier == 'thorough':
     full += [(3, 4), (3, 7)]
-    xconc += [(6, 2), (8, 4), (10, 7), (12, 14)]
+    xconc += [(6, 2), (8, 4)]
   for shapes, xc in ((full, False), (xconc, True)):
     for n, T in shapes:
       name = 'n%d-T%d%s' % (n, T, '-xconcrete' if xc else '')
